@@ -260,6 +260,9 @@ def _labeler(prog, cl, rec_types):
                         inner |= prog.resolve_op(x.body, x.term.args[0], OKFLOW, x.blk)
                     if inner and all(y.kind == "call" and y.callee is not None and y.callee.path == "core::str::<impl str>::parse" for y in inner):
                         return ("parse", {switch_target(term, VIDX["Continue"]): "Ok", switch_target(term, VIDX["Break"]): "Err"})
+                    # `record.integrity?` : Try::branch on the record's own Option field
+                    if inner and all(y.kind == "field" and y.info[0] in rec_types and y.info[1] == "integrity" and not y.path for y in inner):
+                        return ("integrity", {switch_target(term, VIDX["Continue"]): "Some", switch_target(term, VIDX["Break"]): "None"})
         return ("?", {s: "?%d" % i for i, s in enumerate(prog.cfg(cl).succ[blk_.i])})
     return label_switch
 
